@@ -17,18 +17,18 @@ static const char* status_name(int st)
    case 4: return "INForUNBD";
    case 5: return "OPTIMAL_UNSCALED_VIOLATIONS";
    case 0: return "UNKNOWN";
-   case -1: return "REGULAR";
-   case -2: return "RUNNING";
-   case -3: return "NOT_INIT";
+   case -1: return "RUNNING";
+   case -2: return "REGULAR";
+   case -3: return "NO_PROBLEM";
    case -4: return "SINGULAR";
-   case -5: return "NO_PROBLEM";
+   case -5: return "ABORT_VALUE";
    case -6: return "ABORT_ITER";
    case -7: return "ABORT_TIME";
    case -8: return "ABORT_CYCLING";
-   case -9: return "ABORT_VALUE";
-   case -10: return "NO_SOLVER";
-   case -11: return "NO_PRICER";
-   case -12: return "NO_RATIOTESTER";
+   case -11: return "NOT_INIT";
+   case -12: return "NO_SOLVER";
+   case -13: return "NO_PRICER";
+   case -14: return "NO_RATIOTESTER";
    case -15: return "ERROR";
    default: return "OTHER";
    }
@@ -605,11 +605,12 @@ int main(int argc, char** argv)
       pg.densities = {15, 40, 100};
       pg.seeds = thorough ? 60 : 6;
       pg.magnitudes = 2;
+      pg.kinds = 4;
       rep.phase("planted LPs up to 40x40 x dev<=1", pg.size(), [&](uint64_t idx, int pass, Ctx & c) -> uint64_t
       {
          return run_planted(pg.at(idx), cfg1, c, pass == 0);
       }, [&](uint64_t idx, uint64_t sub) { return pg.at(idx).str() + "#" + (sub < cfg1.size() ? g_cs.str(cfg1[sub]) : std::string("default")); }, o, sigsfx(&cfg1));
-      rep.extra["planted_grid"] = jstr("sizes (n x m) 4x3 5x8 8x5 10x10 16x12 12x20 24x24 40x25 30x40 40x40; densities 15/40/100 %; degenerate 0/1; min/max; kinds OPT/INF/UNB; each member also rescaled by powers of two 2^-8..2^8 per row and column; seeds 0.." + std::to_string(pg.seeds - 1));
+      rep.extra["planted_grid"] = jstr("sizes (n x m) 4x3 5x8 8x5 10x10 16x12 12x20 24x24 40x25 30x40 40x40; densities 15/40/100 %; degenerate 0/1; min/max; kinds OPT/INF/UNB/COV; each member also rescaled by powers of two 2^-8..2^8 per row and column; seeds 0.." + std::to_string(pg.seeds - 1));
    }
    {
       // phase N: the 40 shipped MPS instances of the pinned suite x all configurations with <= 1 deviation (the suite itself runs 12 settings and compares one number)
